@@ -1,7 +1,8 @@
 (* C16 — tars2go: valid IDL yields compiling, conformant code; the tool always terminates. Statements only. *)
 From Coq Require Import String.
 From Coq Require Import List NArith ZArith.
-From TarsV Require Import Base.Hex Idl.Lexer Idl.LexerProofs Idl.Parser Idl.ParserProofs Idl.Corr Idl.Schema.
+From TarsV Require Import Base.Hex Idl.Lexer Idl.LexerProofs Idl.Parser Idl.ParserProofs Idl.Corr.
+From TarsV Require Idl.Schema Idl.SchemaProofs Codec.GenCodec Codec.Corr.
 Import ListNotations.
 Open Scope N_scope.
 
@@ -33,6 +34,18 @@ Proof. exact ParserProofs.unrepaired_hangs. Qed.
 Theorem C16_repaired_enum_eof_diagnosed : parse_bytes (bs "module m { enum E {") = OErr.
 Proof. exact ParserProofs.repaired_diagnoses. Qed.
 
+(* "codecs ... satisfy the codec properties for that schema": the schema environment of every program the front
+   end accepts (where env_of_module is defined: the fragment whose generated Go compiles) is well formed, so the
+   generated-codec theorems C03-C06, stated for well-formed environments, apply to it *)
+Theorem C16_schema_wf : forall input m e,
+  parse_bytes input = OOk m -> Schema.env_of_module m = Some e -> Codec.Corr.wf_env e = true.
+Proof. exact SchemaProofs.schema_wf. Qed.
+Theorem C16_schema_wf_instance :
+  match parse_bytes SchemaProofs.example_idl with OOk m => Schema.env_of_module m | _ => None end = Some SchemaProofs.example_env.
+Proof. exact SchemaProofs.schema_wf_instance. Qed.
+
+Print Assumptions C16_schema_wf.
+Print Assumptions C16_schema_wf_instance.
 Print Assumptions C16_lexer_consumes.
 Print Assumptions C16_lexer_eof_idempotent.
 Print Assumptions C16_lexer_fuel.
